@@ -3,7 +3,7 @@
 import json, os, sys
 V = os.path.dirname(os.path.dirname(os.path.abspath(__file__)))
 
-HOOK_COMMITS = []
+HOOK_COMMITS = ['e6b7f67', 'dbf5f1c']
 
 CHECKS = {
  'C13': dict(
@@ -154,6 +154,43 @@ CHECKS = {
     note='Exhaustive over abstract cases (length <= 3 quick / 4 thorough); bytes per token are representative encodings; the hash function and the '
          'Tokenized action parser are trusted libraries.',
     technique='declarative TLA+ spec + TLC case enumeration with expected verdicts + comparison against the real filter'),
+ 'C16': dict(
+    engine='RemoteClient',
+    category='model_checking',
+    text='TLA+ specification of the remote client against a scripted service (spec/RemoteClient.tla: registration list in arrival order, send buffer '
+         'that waits for the handshake, stale registrations of abandoned calls, routing per kind and key, rejects, time-outs, drops) checked '
+         'exhaustively by TLC (Correlated, RespondIsolated, Answered, TimeoutIsolated; RejectSurfaces on the repaired model). TLC-simulated '
+         'scenarios and directed ones (every kind with crossed answers, late duplicates, answers for other keys, time-out then retry) are run '
+         'against the real RemoteClient.Run() with all its goroutines and a loop-back service; TLC evaluates the formulas on the recorded '
+         'observations and validates every step against the specification. The outputs lookup is a declarative TLA+ specification '
+         '(spec/OutputsCases.tla) enumerated by TLC into every outpoint list up to the bound with its expected result and compared with the real GetOutputs.',
+    design_ref='DESIGN.md 5.7, 6 (C16)',
+    note='Known finding F11d (a Reject without a hash - GetHeaders, GetFeeQuotes - cannot be routed). F11a/F11b repaired. Steps are separated by a '
+         'marker message that has passed the client\'s routing and handler goroutines, not by wall-clock time; time-outs are real (2.5 s).',
+    technique='TLA+ spec + TLC exhaustive + scenario replay against the real client with trace validation; TLA+ case enumeration for GetOutputs'),
+ 'C17': dict(
+    engine='RemoteClient',
+    category='model_checking',
+    text='Same specification and driver: notification ids 1..5 in any order (repeated, skipped, out of order), before and after the accept, across '
+         'drops and re-declared Ready. TLC checks NotifyP / ReadyP / DropP / QuietP on the model; on the real client TLC evaluates NotifyInOrder '
+         '(delivered iff accepted and id = next; next = id + 1), ReadySetsNext, ResumePointSurvives, NotifyAllInOrder (in-sync and headers '
+         'notifications in order), NothingElseDelivered and HandlersAgree (two registered handlers see the same sequence) after every step.',
+    design_ref='DESIGN.md 5.7, 6 (C17)',
+    note='F21 (tx data delivered before the accept) repaired. One scripted service; handler callbacks are recorded under a mutex in callback order.',
+    technique='TLA+ spec + TLC exhaustive + scenario replay against the real client with trace validation'),
+ 'C18': dict(
+    engine='RemoteClient',
+    category='model_checking',
+    text='Same specification and driver: the service answers the real Register (signature checked by the harness) with a valid AcceptRegister or '
+         'one of four forgeries (wrong key, key for another hash, signature by another key, counts altered after signing; the signed hash is '
+         'computed by the harness, not by the code under test); application calls are issued before, between and after accept and ready, for both '
+         'connection types, with drops and stops. TLC checks Gated, AcceptP, FlushP, WrittenP on the model; on the real client TLC evaluates Gated '
+         '(every non-handshake message the service receives arrives after the handshake of that connection), AcceptedOnlyIfValid, RegisterSigned, '
+         'FlushedWithHandshake and AnsweredOnlyIfWritten on what the service actually received, per connection, after every step.',
+    design_ref='DESIGN.md 5.7, 6 (C18)',
+    note='F33 (queued requests written to a connection that failed authentication / was stopped) found by this check and repaired. The connection '
+         'shutdown is slowed by 5 ms at the verif hook conn.teardown so that goroutines woken by it run before the socket closes.',
+    technique='TLA+ spec + TLC exhaustive + scenario replay against the real client with trace validation'),
 }
 
 NOT_YET = {}
